@@ -9,7 +9,7 @@
    and output are arbitrary functions of the user-visible state ONLY (that is the hypothesis
    that the program does not mention __COVER).  Outcome [OFuel] = the fuel ran out. *)
 From Verif Require Import Lib.Base Model.Cover Proofs.CoverBase Proofs.CoverStruct Proofs.CoverSim
-  Proofs.CoverMain Proofs.CoverWf Proofs.CoverOwn.
+  Proofs.CoverMain Proofs.CoverWf Proofs.CoverOwn Proofs.CoverFiles.
 
 (* ---- transparency ------------------------------------------------------------------- *)
 (* For every interpreter (all primitives arbitrary), every program without counter statements
@@ -162,6 +162,26 @@ Theorem C18_blocks_well_formed : forall files (b : block) p1 p2 k s,
     /\ pcol (b_start b) = pcol p1 /\ pcol (b_end b) = pcol p2.
 Proof. exact block_in_file. Qed.
 Print Assumptions C18_blocks_well_formed.
+
+(* FileReader: AddFile keeps the reader state well formed (line table total = newlines of the
+   concatenated source, source newline-terminated) ... *)
+Theorem C18_add_file_ok : forall st path content, reader_ok st -> reader_ok (add_file st path content).
+Proof. exact add_file_ok. Qed.
+Print Assumptions C18_add_file_ok.
+
+(* ... and FileLine is exact: the byte at offset |pre| of the text appended for this file lies on
+   global line (newlines before it in the whole source)+1, which FileLine maps to this file and
+   to (newlines before the byte inside the file)+1; lines of earlier files keep their image. *)
+Theorem C18_file_line_exact : forall files src path content,
+  reader_ok (files, src) ->
+  exists added, add_file (files, src) path content = (files ++ [(path, count_nl added)], src ++ added)
+  /\ (added = content \/ added = content ++ [10])
+  /\ (forall pre post, added = pre ++ post -> post <> [] ->
+        file_line (files ++ [(path, count_nl added)]) (count_nl (src ++ pre) + 1) = (path, count_nl pre + 1))
+  /\ (forall line, 1 <= line <= count_nl src ->
+        file_line (files ++ [(path, count_nl added)]) line = file_line files line).
+Proof. exact file_line_exact. Qed.
+Print Assumptions C18_file_line_exact.
 
 (* F-C18-2: without the same-file guard the statement fails: "BEGIN { print 1" + "print 2 }" *)
 Theorem C18_blocks_straddle_refuted :
